@@ -257,10 +257,13 @@ def execute(spec: Dict[str, Any], ctx: Ctx) -> None:
     if plan.get("pad"):
         di, n = plan["pad"]
         d = docs[di % len(docs)]
+        # starts with "b" so that none of the generator's regular expressions (".*b.*", ...) backtracks
+        # quadratically over it: time spent inside the regex engine is nobody's property here
+        pad = "b" + "p" * (n - 1)
         if isinstance(d, dict):
-            d["zz_pad"] = "p" * n
+            d["zz_pad"] = pad
         else:
-            d.append("p" * n)
+            d.append(pad)
         ctx.count("probe.large_document")
     fctx = plan["ctx"]
     env = jsonpath.JSONPathEnvironment()
